@@ -199,10 +199,16 @@ let () =
            let t = finish a in
            cur := None;
            if tag = "A" then topoA := Some t else if tag = "B" then topoB := Some t
-         | "build" :: _ ->
+         | "dobuild" :: _ ->
+           print_endline "dobuild";
            let a = getA () in
            let b = (match !topoB with Some t -> t | None -> failwith "no B") in
            hyp "A" a; hyp "B" b;
+           let top t = (t.t_allowed_cpuset, t.t_allowed_nodeset, t.t_dists, t.t_cpukinds) in
+           Printf.printf "eq root=%s top=%s tinfos=%s tinfonames=%s mattr=%s skel=%s\n"
+             (b01 (erase a.t_root = erase b.t_root)) (b01 (top a = top b)) (b01 (a.t_infos = b.t_infos))
+             (b01 (List.map fst a.t_infos = List.map fst b.t_infos))
+             (b01 (a.t_memattrs = b.t_memattrs)) (b01 (skel a.t_root = skel b.t_root));
            (match diff_build N0 a b with
             | BOverread -> raise (Case_crashed "build-overread")
             | BRet (rc, d) ->
